@@ -33,7 +33,7 @@ META = dict(
          "ended by a jesse exception is judged as a prefix. Model: fee 0, one symbol, wallet relative to the cycle start.",
     design_ref="4/C06")
 
-KINDS_Q = ["ladder", "over", "sized", "fast2", "near", "wrong", "tf5", "fast", "two", "iso", "half", "fast2", "spotfee", "tf15", "tf60", "iso",
+KINDS_Q = ["ladder", "over", "sized", "fast2", "near", "wrong", "tf5", "fast", "two", "iso", "half", "fast2", "spotfee", "tf15", "tf60", "spotover",
            "spotover"]
 
 
